@@ -158,6 +158,7 @@ def run_case(case):
     fam = gen.chain_family(case["chain"])
     password = "secret" if gen.chain_has_aes(case["chain"]) else None
     cls = {"chain": fam, "tex": case["tex"], "position": case["position"], "rlimit_data": bool(case.get("rlimit_data_gib"))}
+    cls.update(case_class(case))
 
     def viol(oracle, site, detail, **extra):
         c = dict(cls)
@@ -301,3 +302,8 @@ def run_case(case):
         return res
     finally:
         shutil.rmtree(scratch, ignore_errors=True)
+
+
+def case_class(case):
+    """Dependency flags (third-party codec libraries with listed defects), computed from the case, never from the failure."""
+    return gen.dep_flags([case.get("chain")], None, None)
